@@ -146,6 +146,15 @@ func (vc *VC) modLocs(fi *FuncInfo, items []*ModItem, args []SV, st *State) []Lo
 		}
 		inner := *v.Box
 		t := v.BoxT
+		if m.All2 {
+			mt, ok := t.Underlying().(*types.Map)
+			if !ok {
+				vc.fail("modifies %s[*][*]: not a map of maps", m.Expr)
+			}
+			mi := vc.eng.mapInfoOf(mt.Elem())
+			out = append(out, Loc{Space: 'M', TK: mi.Key, Ref: "*", Desc: m.Expr + "[*][*]"})
+			continue
+		}
 		if !m.All {
 			lv := vc.lvalOfSV(inner, t)
 			n := len(vc.eng.layoutOf(lv.Typ).L)
@@ -183,6 +192,20 @@ func (vc *VC) applyContract(fr *Frame, callee *ssa.Function, fi *FuncInfo, args 
 	cargs := append(append([]SV{}, bind...), args...)
 	if callee.Signature.Variadic() {
 		// nothing special: the variadic parameter is a slice value
+	}
+	for _, h := range strings.Split(fi.C.Attrs["holds"], ";") {
+		if h = strings.TrimSpace(h); h == "" || vc.holdsAttr(h) {
+			continue
+		}
+		held := false
+		for _, hl := range vc.st.Held {
+			if hl.inv.Type == h {
+				held = true
+			}
+		}
+		if !held {
+			vc.oblige("call.holds:"+cname+":"+h, []string{"C08"}, "false")
+		}
 	}
 	pre := vc.st.clone()
 	for i, rq := range fi.C.Requires {
@@ -298,6 +321,12 @@ func (vc *VC) gcIntrinsic(fr *Frame, inst *ssa.Function, args []SV) ([]SV, bool)
 			}
 		}
 		return []SV{scalar(and(cs...))}, true
+	case "gcNow":
+		t := vc.st.Ghost["now"]
+		if t == "" {
+			t = "1.0"
+		}
+		return []SV{scalar(t)}, true
 	case "gcFresh":
 		// every reference inside the value was allocated during the current call
 		var cs []string
